@@ -338,6 +338,8 @@ impl<'a> Exec<'a> {
         let allocs_before = apimon::allocs_in_api();
         clk::set_now(Duration::ZERO);
         clk::set_read_step(dur(trace.read_step_ns));
+        crate::simclock::set_read_step(dur(trace.read_step_ns));
+        let direct_before = crate::simclock::direct_reads();
         let timeout = dur(trace.timeout_ns);
         let mut sink = Sink::new();
         let init = (|| -> Result<(Scn, Vec<Scn>, Scn), Panicked> {
@@ -454,6 +456,7 @@ impl<'a> Exec<'a> {
         }
         let _ = allocs_before;
         e.p.clock_reads = clk::clock_reads().wrapping_sub(clock_reads_before);
+        e.p.direct_clock_reads = crate::simclock::direct_reads() - direct_before;
         let calls = apimon::calls();
         for i in 0..apimon::N_LABELS {
             e.p.api_calls[i] = calls[i] - calls_before[i];
